@@ -125,19 +125,21 @@ theorem Lat.Laws.le_joinL (h : lat.Laws) (l : List L) (x : L) (hx : x ∈ l) : l
 
 theorem tabulate_eq {α : Type} (N : Nat) (f : Nat → α) : tabulate N f = f := by
   funext v
-  unfold tabulate lookupTab
+  unfold tabulate lookupTab tab
   split
   · simp
   · rfl
 
 theorem Dense.reify_eq {L : Type} (G : Dense.Graph) (s : Dense.St L) : Dense.reify G s = s := by
   unfold Dense.reify
-  simp only [tabulate_eq]
+  have h : ∀ {α : Type} (N : Nat) (f : Nat → α), lookupTab (tab N f) f = f := tabulate_eq
+  simp only [h]
 
 theorem Sparse.reify_eq {L : Type} (P : Sparse.Prog L) (nv : Nat) (s : Sparse.St L) :
     Sparse.reify P nv s = s := by
   unfold Sparse.reify
-  simp only [tabulate_eq]
+  have h : ∀ {α : Type} (N : Nat) (f : Nat → α), lookupTab (tab N f) f = f := tabulate_eq
+  simp only [h]
 
 /-! finite sums and counts over `0..k-1` (termination measures) -/
 
